@@ -27,8 +27,8 @@ PROPS = ["C06", "C09", "C12", "C16", "C17", "C18", "C19"]
 
 BUDGET = {
     # runs, determinism pairs, wall cap (s)
-    "quick": {"C06": (420, 24, 240), "C12": (420, 40, 240), "C09": (900, 16, 240), "C16": (900, 16, 240),
-              "C17": (900, 40, 240), "C18": (500, 16, 240), "C19": (400, 16, 240)},
+    "quick": {"C06": (900, 40, 300), "C12": (900, 60, 300), "C09": (2000, 30, 300), "C16": (2500, 30, 300),
+              "C17": (2500, 60, 300), "C18": (1200, 30, 300), "C19": (800, 30, 300)},
     "thorough": {"C06": (12000, 300, 3000), "C12": (12000, 400, 3000), "C09": (40000, 300, 3000),
                  "C16": (40000, 300, 3000), "C17": (40000, 400, 3000), "C18": (15000, 300, 3000),
                  "C19": (8000, 300, 3000)},
